@@ -4,7 +4,7 @@
    previous one.  Offsets are indices into the list of code points by construction of the model
    (a supplementary-plane character is one list element).  Partial: leftmost-ness and the
    ordered-choice clause need E5 / E1. *)
-From RX Require Import Base.Prelude Model.Engine Model.Matcher Model.Api Proofs.ScanFacts.
+From RX Require Import Base.Prelude Model.Engine Model.Matcher Model.Api Proofs.ScanFacts Model.Op Proofs.EngineFacts Proofs.EngineCorollaries.
 
 Fixpoint ordered (spans : list (nat * nat)) (from : nat) : Prop :=
   match spans with
@@ -28,4 +28,20 @@ Theorem C02_spans_ordered_partial :
     forall fuel pos s, pos <= length input -> ordered (scan matchf input fuel pos s) pos.
 Proof. exact scan_ordered. Qed.
 
+(* E5 on the fragment (see C01_fragment_is_match_partial): the reported match starts at the
+   leftmost position at or after the search position where the operation has any match, and ends
+   at the first - highest-priority - end position of the list-of-successes function *)
+Theorem C02_fragment_leftmost_first_partial :
+  forall prog input i s s',
+    simple input (p_case prog) (p_multi prog) (p_hasbackrefs prog) (p_maxparens prog) (p_op prog) ->
+    (p_hasbol prog = false /\ p_minlen prog = 0%N /\ p_prefix prog = None /\ p_icc prog = None /\ p_pre prog = []) ->
+    i <= length input -> length (sb s) = length (eb s) ->
+    matches prog input i s = MTrue s' ->
+    exists k q rest, i <= k <= length input
+      /\ (forall m, i <= m < k -> Rop input (p_case prog) (p_multi prog) (p_op prog) m = [])
+      /\ Rop input (p_case prog) (p_multi prog) (p_op prog) k = q :: rest
+      /\ q <= length input /\ get_pend s' 0 = Some q.
+Proof. intros prog input i s s' H1 H2. exact (fragment_leftmost_first prog input H1 H2 i s s'). Qed.
+
 Print Assumptions C02_spans_ordered_partial.
+Print Assumptions C02_fragment_leftmost_first_partial.
